@@ -397,7 +397,11 @@ func (s *TxStore) insertMinedTxForImporting(tx mwdb.DBTransaction,
 				"blockHash": block.Hash.String(),
 			})
 	}
-	return nil
+	// Like the follower does for a ready wallet: pending transactions that
+	// spend the same coins of the importing wallet lost to this one. They can
+	// be in the store through another wallet they pay, or from a block that
+	// was rolled back before this wallet was removed and imported again.
+	return s.removeDoubleSpends(tx, rec)
 }
 
 func (s *TxStore) removeDoubleSpends(tx mwdb.DBTransaction, rec *TxRecord) error {
